@@ -82,6 +82,37 @@ def proc_syscall(pid):
         return "running"
 
 
+SYS_FUTEX = {202}                          # futex: a thread waiting for another thread of its own process
+
+
+def other_threads_blocked(pid):
+    """True if every thread of `pid` other than its main thread sleeps in a read, a poll or a futex (a helper thread that
+    waits for input or for its main thread: the log viewer drains its standard input in a thread of its own).  A helper
+    thread that is running means the process is not at rest, whatever its main thread does."""
+    try:
+        tids = os.listdir("/proc/%d/task" % pid)
+    except (FileNotFoundError, ProcessLookupError, NotADirectoryError):
+        return True
+    for t in tids:
+        if t == str(pid):
+            continue
+        try:
+            with open("/proc/%d/task/%s/stat" % (pid, t), "rb") as f:
+                st = f.read().decode("latin1")
+            with open("/proc/%d/task/%s/syscall" % (pid, t), "rb") as f:
+                sc = f.read().decode("latin1").split()
+        except (FileNotFoundError, ProcessLookupError, PermissionError, OSError):
+            continue       # gone meanwhile
+        state = st[st.rfind(")") + 2:].split(" ")[0]
+        if state in ("Z", "X"):
+            continue
+        if state != "S" or not sc or not sc[0].isdigit():
+            return False
+        if int(sc[0]) not in (SYS_READ | SYS_POLL | SYS_FUTEX):
+            return False
+    return True
+
+
 class Scheduler:
     def __init__(self, workdir, sockpath, lockfile, visible, chooser, max_steps=4000, step_timeout=20.0, poll_at=None,
                  kill_roots=(), max_kills=1, env_player=None, on_ask=None, term_scripts=()):
@@ -289,6 +320,8 @@ class Scheduler:
                     return False   # our own child: reap first
                 continue           # a zombie whose parent has not collected it yet: the parent decides
             if pid in parked:
+                if not other_threads_blocked(pid):
+                    return False       # parked at a gate while a helper thread of it is still at work
                 continue
             if state != "S":
                 return False
@@ -301,6 +334,11 @@ class Scheduler:
                 return False       # waiting although every child is gone: it is about to continue
             if pid in self.procs and (sc in SYS_READ or sc in SYS_POLL or sc in SYS_PAUSE or sc in SYS_WRITE):
                 continue
+            if pid in self.procs and sc in SYS_FUTEX:
+                # the main thread waits for a helper thread of its own (which in turn waits for input: checked below)
+                if other_threads_blocked(pid):
+                    continue
+                return False
             if pid in self.procs and sc in SYS_SLEEP:
                 # a hooked process sleeping outside any gate: SQLite's busy handler waiting for a database lock
                 # whose holder is parked.  After 150 ms of uninterrupted sleeping it counts as blocked (the holder
